@@ -156,7 +156,7 @@ PROPS.update({
     "C09": mk("C09", WELL + [("fail", GB.case_failing_checker, 1)], 900, 20000,
               proj_lines(("op ", "ev read_end", "ev write_end", "ev require_end", "ev check_", "abort ", "bad-op")), OB.c09, [],
               proj_name="C09: stamps in *_end events and verdicts of every check event"),
-    "C16": mk("C16", WELL + [("hid", GB.case_hidden, 1), ("fail", GB.case_failing_checker, 1)], 900, 20000,
+    "C16": mk("C16", WELL + [("bud", GB.case_bu_dense, 2), ("hid", GB.case_hidden, 1), ("fail", GB.case_failing_checker, 1)], 900, 20000,
               proj_lines(ALL_BUILD), lambda c, io: [], [], proj_name="C16: complete canonical event stream and outputs",
               replays=dict(quick=2, thorough=7)),
     "C17": mk("C17", WELL + [("pan", GB.case_panic, 1), ("fail", GB.case_failing_checker, 1)], 900, 20000,
